@@ -72,15 +72,20 @@ func (e *env) runRandom(j job) {
 		run.Count("state_constructed:never", 1)
 		return true
 	}
-	// waitGone: after a disconnect, wait until the observer has been told
-	waitGone := func(id string, from int) bool {
-		_, ok := w.obs.WaitForFrom(from, func(m vclient.Msg) bool {
-			return m.Str("type") == "user" && m.Str("kind") == "delete" && m.Str("id") == id
-		}, wd)
-		if !ok {
-			w.inconclusive("a disconnected member never left the group")
+	// waitGone: the server notices a closed socket whenever it does, and tells the members
+	// one after the other from the goroutine that noticed; wait until every member has
+	// been told, so that the departure is not taken for the effect of the next message
+	waitGone := func(id string, marks map[*vclient.Client]int) bool {
+		for c, from := range marks {
+			_, ok := c.WaitForFrom(from, func(m vclient.Msg) bool {
+				return m.Str("type") == "user" && m.Str("kind") == "delete" && m.Str("id") == id
+			}, wd)
+			if !ok {
+				w.inconclusive("a member was never told that a disconnected member left")
+				return false
+			}
 		}
-		return ok
+		return true
 	}
 	joinAs := func(s *slot, ps permSet, password, group string) bool {
 		a := s.a
@@ -282,9 +287,14 @@ func (e *env) runRandom(j job) {
 			drop(s)
 		default:
 			w.logf("actor %s disconnects abruptly", a.c.ID)
-			id, from := a.c.ID, w.obs.EventCount()
+			id, marks := a.c.ID, map[*vclient.Client]int{}
+			for _, c := range w.clients() {
+				if c != a.c && w.isMember(c) {
+					marks[c] = c.EventCount()
+				}
+			}
 			drop(s)
-			if !waitGone(id, from) {
+			if !waitGone(id, marks) {
 				return
 			}
 		}
